@@ -174,8 +174,15 @@ class RegexCompiler:
                 (0xFEFF, 0xFEFF),
             ]
         elif ch == "S":
-            # Non-whitespace - simplified
-            return [(ord("!"), ord("~"))]  # Printable ASCII
+            # Non-whitespace: the complement of the \\s ranges
+            complement = []
+            low = 0
+            for start, end in sorted(self._expand_shorthand("s")):
+                if start > low:
+                    complement.append((low, start - 1))
+                low = end + 1
+            complement.append((low, 0x10FFFF))
+            return complement
         else:
             raise RegExpError(f"Unknown shorthand: \\{ch}")
 
